@@ -1,5 +1,5 @@
 """C01 - opening a masked card returns the type it was created with (discrete-log encoding; QR encoding: see c01 part 2)"""
-import vlib, vtmf_common, qr_common
+import vlib, vtmf_common, qr_common, qrproof_common, parts
 PID = "C01"
 def run(tier, seed):
     ck = vlib.Check(PID, tier, seed, "model_checking")
@@ -11,6 +11,8 @@ def run(tier, seed):
             return "%s:%s" % (e["e"], e.get("card"))
         return None
     vtmf_common.record_and_validate(ck, PID, "c01", 400 if tier == "quick" else 6000, seed, interesting)
+    # the opening proofs of the quadratic-residue encoding (TMCG_ProveCardSecret / TMCG_VerifyCardSecret): QRProof.tla
+    qrproof_common.run(ck, PID, tier, seed, PID)
     qr_common.run_mc(ck)
     qr_common.record_and_validate(ck, PID, 150 if tier == "quick" else 3000, seed, ["Open","Mask","Type","CSec","Self"])
     ck.cov["rule"] = ("MC: all key vectors x types x mask chains (all coins) x contributed subsets in the group p=23,q=11; "
@@ -21,5 +23,5 @@ def run(tier, seed):
 def replay(path, seed):
     import tracecheck
     ck = vlib.Check(PID, "quick", seed, "model_checking")
-    tracecheck.validate(ck, PID, "replay", "VTMFTrace", "VTMFTrace.cfg", tracecheck.split_executions(path), classify=vtmf_common.classify, chunks=1)
+    parts.replay_dispatch(ck, PID, path, lambda: tracecheck.validate(ck, PID, "replay", "VTMFTrace", "VTMFTrace.cfg", tracecheck.split_executions(path), classify=vtmf_common.classify, chunks=1))
     return ck.finish()
